@@ -297,7 +297,7 @@ def c09_cases(tier, seed):
         ops += [_cmp({"op": "simulate", "light": True}, 1, "C09", "lg")]          # simply call simulate again
         # a run with other options in between must leave nothing behind either
         ops += [{"op": "simulate", "light": True, "opts": {"absL": [1, 2], "rule": "FIFO", "autoAbs": True, "maxTime": 7}},
-                _cmp({"op": "simulate", "light": True}, 1, "C09", "lg")]
+                _cmp({"op": "simulate", "light": True, "defaults": True}, 1, "C09", "lg")]
         ops += [{"op": "backward", "light": True}, _cmp({"op": "simulate", "light": True}, 1, "C09", "lg")]
         ops += [{"op": "rebuild", "plain": True}, _cmp({"op": "simulate", "light": True}, 1, "C09", "lg")]
         out.append(_hist(cfg, "c09", ops))
@@ -592,6 +592,8 @@ def _hist_op(o):
         return {"op": "backward", "due": o["due"], "reverse": o["reverse"], "light": True}
     if k == "insert_absence":
         return {"op": "insert_absence", "L": list(o["L"])}
+    if k == "insert_absence_rel":
+        return {"op": "insert_absence", "L": list(o["L"]), "rel": True}
     return {"op": k}
 
 
